@@ -30,6 +30,9 @@ TYPEDEFS = {
                  edges=[(0, 1), (0, 2), (0, 3)]),
     "HUB": dict(res=[("R2", ["m", "n"]), ("R5", ["c", "x", "y", "z", "w"]), ("R2", ["m", "n"]), ("R4", ["c", "x", "y", "z"])],
                 edges=[(0, 1), (1, 2), (1, 3)]),
+    # equivalent residues listing their atoms in different orders (bonds given by name: c-x, x-y, y-z)
+    "PERM": dict(res=[("R4", ["c", "x", "y", "z"]), ("R4", ["z", "x", "c", "y"]), ("R4", ["y", "z", "x", "c"])],
+                 edges=[(0, 1), (1, 2)], intra={"c": ["x"], "x": ["y"], "y": ["z"]}, anchor="c"),
     "SOLO": dict(res=[("R4", ["c", "x", "y", "z"])], edges=[]),
 }
 TEMPLATES = """[ template ]
@@ -46,11 +49,11 @@ y z
 [ template ]
 resname R5
 [ atoms ]
-c P 0.00 0.00 0.00
-x P 0.25 0.00 0.05
-y P -0.10 0.30 0.00
-z P 0.00 -0.05 0.35
 w P 0.15 0.20 -0.30
+z P 0.00 -0.05 0.35
+c P 0.00 0.00 0.00
+y P -0.10 0.30 0.00
+x P 0.25 0.00 0.05
 [ bonds ]
 c x
 x y
@@ -71,7 +74,7 @@ VOLS = {"R1": 0.5, "R2": 0.5, "R3": 0.5, "R4": 0.5, "R5": 0.5}
 
 def systems(tier):
     out = []
-    for name in ("LIN", "STAR", "HUB", "SOLO"):
+    for name in ("LIN", "STAR", "HUB", "SOLO", "PERM"):
         for bf in (0.4, 1.0):
             out.append(dict(types=[name], typedefs={name: TYPEDEFS[name]}, molecules=[(name, 1)], box=[4.0, 4.0, 4.0],
                             grid=[[1.0, 1.0, 1.0], [2.5, 2.5, 2.5]], volumes=VOLS, bld_pre=TEMPLATES, kwargs=dict(bfudge=bf)))
@@ -155,7 +158,8 @@ def judge(sysd, res, choices, angle_options):
                     if abs(vt) > 1e-9 and (vt > 0) != (vq > 0):
                         bad("proper-rotation-keeps-handedness", f"molecule {mi} residue {nd['resid']} ({nd['resname']}): signed volume {vq} vs template {vt}")
                         break
-            shapes.setdefault(nd["template"], []).append(np.round(gram(Q), 7).tolist())
+            order = np.argsort(names)      # copies may list their atoms in different orders: compare by atom name
+            shapes.setdefault(nd["template"], []).append(np.round(gram(Q[order]), 7).tolist())
     for tname, gs in shapes.items():
         if any(g != gs[0] for g in gs):
             bad("copies-of-a-residue-type-congruent", f"template {tname}: copies differ")
